@@ -152,6 +152,7 @@ func checkC06(c *Ctx) {
 	ruleDispatch(c, dv, "R6.8", false, true) // every axis position reaches the transfer function
 	ruleFlipAfterDeadzone(c, dv, "R6.7")
 	ruleRescaleExact(c, dv, "R6.10")
+	ruleShiftOnlyUnsigned(c, dv, "R6.11")
 	c.importRules(checkC07, []string{"R7.1"}, "R6.9") // every position that passes the gates is transmitted: each controller path sends the active controller (no second, value-based suppression)
 	c.MinCount("R6.1", 2)
 	c.MinCount("R6.2", 2)
@@ -859,4 +860,149 @@ func rescaleRules(c *Ctx) {
 		return
 	}
 	ruleRescaleExact(c, dv, "R6.10")
+	ruleShiftOnlyUnsigned(c, dv, "R6.11")
+}
+
+// ruleShiftOnlyUnsigned: R6.11 the centre shift 2v-1 (which maps the unsigned range [0,1] onto [-1,1]) is applied only where
+// the axis is known to be unsigned (minimum >= 0).  Applied to a signed axis, whose position is already in [-1,1], it yields
+// [-3,1]: the low end stop leaves the range, the controller byte wraps and the transfer function is no longer monotonic.
+func ruleShiftOnlyUnsigned(c *Ctx, dv *dev, rule string) {
+	fn := dv.fn["handleABSEvent"]
+	hosts := []*ssa.Function{fn}
+	for _, h := range c.P.Funcs {
+		if dv.newHelpers()[h] && dv.ownerOf(h) == fn {
+			hosts = append(hosts, h)
+		}
+	}
+	isConstF := func(v ssa.Value, want float64) bool {
+		k, ok := v.(*ssa.Const)
+		if !ok || k.Value == nil {
+			return false
+		}
+		f, _ := constant.Float64Val(constant.ToFloat(k.Value))
+		return f == want
+	}
+	isMin := func(v ssa.Value) bool {
+		for i := 0; i < 3; i++ {
+			if cv, ok := v.(*ssa.Convert); ok {
+				v = cv.X
+			}
+		}
+		return isFieldNamed(v, "Minimum")
+	}
+	// does (v == want) imply minimum >= 0 ?
+	var implies func(v ssa.Value, want bool, depth int) bool
+	var guardedAt func(b *ssa.BasicBlock, depth int) bool
+	edgeImplies := func(pred, to *ssa.BasicBlock, depth int) bool {
+		for hop := 0; hop < 4; hop++ {
+			if ifi, ok := pred.Instrs[len(pred.Instrs)-1].(*ssa.If); ok {
+				if pred.Succs[0] == pred.Succs[1] {
+					return false
+				}
+				return implies(ifi.Cond, pred.Succs[0] == to, depth+1)
+			}
+			if len(pred.Preds) != 1 {
+				return false
+			}
+			pred, to = pred.Preds[0], pred
+		}
+		return false
+	}
+	implies = func(v ssa.Value, want bool, depth int) bool {
+		if depth > 12 {
+			return false
+		}
+		switch x := v.(type) {
+		case *ssa.UnOp:
+			if x.Op == token.NOT {
+				return implies(x.X, !want, depth+1)
+			}
+		case *ssa.BinOp:
+			switch {
+			case isMin(x.X) && isConstF(x.Y, 0):
+				return x.Op == token.LSS && !want || x.Op == token.GEQ && want
+			case isMin(x.Y) && isConstF(x.X, 0):
+				return x.Op == token.GTR && !want || x.Op == token.LEQ && want
+			}
+		case *ssa.Phi:
+			// every edge that can deliver the wanted value must imply it: by the value it delivers, by the branch the
+			// edge leaves, or by the conditions under which its source block runs at all (a && b built as a value)
+			for i, e := range x.Edges {
+				pred := x.Block().Preds[i]
+				if k, ok := e.(*ssa.Const); ok && k.Value != nil && k.Value.Kind() == constant.Bool {
+					if constant.BoolVal(k.Value) != want {
+						continue // this edge cannot produce the wanted value
+					}
+					if !edgeImplies(pred, x.Block(), depth) && !guardedAt(pred, depth+1) {
+						return false
+					}
+					continue
+				}
+				if !implies(e, want, depth+1) && !guardedAt(pred, depth+1) {
+					return false
+				}
+			}
+			return true
+		}
+		return false
+	}
+	views := map[*ssa.Function]*FnView{}
+	guardedAt = func(b *ssa.BasicBlock, depth int) bool {
+		if depth > 12 {
+			return false
+		}
+		vw := views[b.Parent()]
+		if vw == nil {
+			vw = NewFnView(c.P, b.Parent())
+			views[b.Parent()] = vw
+		}
+		for _, a := range vw.GuardsAt(b) {
+			if a.Instr != nil && implies(a.Instr.Cond, a.Taken, depth+1) {
+				return true
+			}
+		}
+		return false
+	}
+	guarded := func(_ *FnView, b *ssa.BasicBlock) bool { return guardedAt(b, 0) }
+	pos := c.P.Pos(fn.Pos())
+	n, bad := 0, ""
+	fnView := NewFnView(c.P, fn)
+	for _, host := range hosts {
+		vw := NewFnView(c.P, host)
+		for _, b := range host.Blocks {
+			for _, in := range b.Instrs {
+				sub, ok := in.(*ssa.BinOp)
+				if !ok || sub.Op != token.SUB || !isConstF(sub.Y, 1) {
+					continue
+				}
+				mul, ok := sub.X.(*ssa.BinOp)
+				if !ok || mul.Op != token.MUL || !(isConstF(mul.X, 2) || isConstF(mul.Y, 2)) {
+					continue
+				}
+				if bt, isB := sub.Type().Underlying().(*types.Basic); !isB || bt.Info()&types.IsFloat == 0 {
+					continue
+				}
+				n++
+				ok = guarded(vw, b)
+				if !ok && host != fn {
+					// a helper: every call from the handler must be guarded
+					sites, all := staticCallSites(c.P, host)
+					ok = all && len(sites) > 0
+					for _, cs := range sites {
+						if cs.Parent() != fn || !guarded(fnView, cs.Block()) {
+							ok = false
+						}
+					}
+				}
+				if !ok && bad == "" {
+					bad = fmt.Sprintf("the centre shift 2v-1 at %s is applied without the axis being known to be unsigned (minimum >= 0): on a signed axis (position already in [-1,1]) it yields [-3,1] - with deadzone_at_center on a stick the low end stop leaves the MIDI range and the transfer function is not monotonic", c.P.Pos(sub.Pos()))
+				}
+			}
+		}
+	}
+	if n == 0 {
+		c.Trivial(rule, "device.handleABSEvent/centre-shift-only-on-unsigned-axes", pos, "no centre shift 2v-1 in the handler")
+		return
+	}
+	c.Check(bad == "", rule, "device.handleABSEvent/centre-shift-only-on-unsigned-axes", pos, fmt.Sprintf("%d centre shift(s) 2v-1, each guarded by a condition that implies minimum >= 0", n), bad)
 }
